@@ -579,6 +579,8 @@ def register_slice(R):
 
     def parts(v, o):
         r, key = v["result"], o["key"]
+        if not (isinstance(r, Obj) and r.cls is NestTrees and isinstance(r.fields.get("idx"), PList)):
+            return None, None, None, None, None
         n = zint(v["self"].fields["trees"].fields["swcs"].n)
         st = 1 if key.step is None else key.step
         s, cnt = py_slice_spec(n, key.start, key.stop, st)
@@ -590,14 +592,16 @@ def register_slice(R):
 
     def selection(E, v, o):
         r, n, st, s, cnt = parts(v, o)
-        L = r.fields["idx"]
-        if L.items is not None:
+        if r is None or r.fields["idx"].items is not None:
             return False
+        L = r.fields["idx"]
         t = z3.Int(fresh_name("t"))
         return z3.And(zint(L.n) == cnt, z3.ForAll([t], z3.Implies(z3.And(t >= 0, t < cnt), z3.Select(L.cols[0], t) == s + t * st)))
 
     def valid(E, v, o):
         r, n, st, s, cnt = parts(v, o)
+        if r is None or r.fields["idx"].items is not None:
+            return False
         L = r.fields["idx"]
         t = z3.Int(fresh_name("t"))
         return z3.ForAll([t], z3.Implies(z3.And(t >= 0, t < zint(L.n)), z3.And(z3.Select(L.cols[0], t) >= 0, z3.Select(L.cols[0], t) < n)))
@@ -606,26 +610,27 @@ def register_slice(R):
         """[:] selects 0..n-1, [::-1] selects n-1..0 (sanity anchors of the specification itself)"""
         r, n, st, s, cnt = parts(v, o)
         key = o["key"]
+        if r is None or r.fields["idx"].items is not None:
+            return False
         if key.start is not None or key.stop is not None or st not in (1, -1):
             return True
         L = r.fields["idx"]
         t = z3.Int(fresh_name("t"))
         return z3.And(zint(L.n) == n, z3.ForAll([t], z3.Implies(z3.And(t >= 0, t < n), z3.Select(L.cols[0], t) == (t if st == 1 else n - 1 - t))))
 
-    variants = {}
-    for st in (None, 1, -1, 2, -3):
+    ENS = ([("slice/an-index-view-of-the-same-container-with-a-private-index-list", same_container),
+            ("slice/selects-exactly-the-positions-of-python's-slice-in-order", selection),
+            ("slice/every-selected-position-is-a-valid-index", valid),
+            ("slice/whole-and-reversed-anchors", whole),
+            "slice/slicing-requests-no-tree :: ncalls('LazyLoadingTrees.__getitem__') == 0 and ncalls('LazyLoadingTrees.load') == 0 and ncalls('Tree.from_swc') == 0"]
+           + ["slice/" + c for c in frame_lazy("self.trees")])
+    for st in (None, 1, -1, 2, -3):  # one contract per step (a construct unsupported for one step must not hide the verdict of the others)
+        variants = {}
         for a_sym, b_sym in ((True, True), (False, False), (True, False), (False, True)):
             nm = f"[{'a' if a_sym else ''}:{'b' if b_sym else ''}:{'' if st is None else st}]"
             variants[nm] = setup(a_sym, b_sym, st)
-    R.add(f"{POP}:Population.__getitem__", prop="C19",
-          variants=variants,
-          requires=wf_lazy("self.trees"),
-          ensures=[("slice/an-index-view-of-the-same-container-with-a-private-index-list", same_container),
-                   ("slice/selects-exactly-the-positions-of-python's-slice-in-order", selection),
-                   ("slice/every-selected-position-is-a-valid-index", valid),
-                   ("slice/whole-and-reversed-anchors", whole),
-                   "slice/slicing-requests-no-tree :: ncalls('LazyLoadingTrees.__getitem__') == 0 and ncalls('LazyLoadingTrees.load') == 0 and ncalls('Tree.from_swc') == 0"]
-          + ["slice/" + c for c in frame_lazy("self.trees")])
+        R.add(f"{POP}:Population.__getitem__", prop="C19", variants=variants, requires=wf_lazy("self.trees"), ensures=ENS,
+              notes=f"slice form, step {st}: start / stop symbolic or missing")
 
 
 _reg19c = register
@@ -1306,6 +1311,35 @@ def register_populations_from_swc(R):
           variants={"two-roots-no-intersection": setup(2, False)},
           ensures=BASE + [("without-intersection-each-population-lists-what-was-found-under-its-root-in-that-order", as_found)],
           notes="intersect=False: no matching; only the minimum length is recorded")
+
+    # Populations.from_eswc: the same matching, every reader is told the extra columns (given ones, then the eswc columns)
+    def eswc_setup(given):
+        def f(S):
+            roots = PList([X.StrRef(S.int(f"root{a}").z) for a in range(2)])
+            g = None if given is None else PList(list(given))
+            return dict(cls=Populations, roots=roots, extra_cols=g, ext=X.StrRef(S.int("ext").z), kwargs=PDict({}), given_roots=roots, given_labels=None, given=g, __ghost__=GHOST)
+
+        return f
+
+    def eswc_columns(E, v, o):
+        from swcgeom.core.swc import eswc_cols as real
+
+        given = o["given"]
+        want = (list(given.items) if given is not None else []) + [k for k, _ in real]
+        ps = pops(v)
+        if not ps:
+            return False
+        for _, lz in ps:
+            kw = lz.fields.get("kwargs")
+            got = kw.items.get("extra_cols") if isinstance(kw, PDict) and kw.items is not None else None
+            if not (isinstance(got, PList) and got.items == want and set(kw.items) == {"extra_cols"}):
+                return False
+        return v.get("given") is None or v["given"].items == list(given.items)
+
+    R.add(f"{POP}:Populations.from_eswc", prop="C19",
+          variants={"two-roots": eswc_setup(None), "two-roots-one-extra-column": eswc_setup(("u",))},
+          ensures=BASE + MATCH + [("every-reader-gets-the-given-columns-then-the-eswc-columns-callers-list-untouched", eswc_columns)],
+          notes="Populations.from_swc inlined")
 
     # FINDING (genuine defect, replayed natively: /var/tmp/w2-c19-x/cs/replay_check_same.py in the report): with intersect=False the
     # option check_same=True is documented as "Check if the directories contains the same swc", but the code asserts a
